@@ -321,7 +321,14 @@ func (x *Exec) freshValue(st *State, t types.Type, name string, input bool) Valu
 		st.Heap[reg] = rv
 		nilf := Fresh(name+".nil", SBool)
 		st.Assume(Implies(nilf, Eq(rv.Length(), IntLit(0))))
-		return &SliceVal{Reg: reg, Off: IntLit(0), Len: rv.Length(), Cap: rv.Length(), Nil: nilf, Elt: u.Elem()}
+		cp := rv.Length()
+		if rv.Arr != nil {
+			// array-represented (non-octet) slices carry an unknown spare capacity
+			cp = Fresh(name+".cap", SInt)
+			st.Assume(Ge(cp, rv.Length()))
+			st.Assume(Implies(nilf, Eq(cp, IntLit(0))))
+		}
+		return &SliceVal{Reg: reg, Off: IntLit(0), Len: rv.Length(), Cap: cp, Nil: nilf, Elt: u.Elem()}
 	case *types.Pointer:
 		o := newObj(ObjCell, u.Elem(), name, !input)
 		o.Opaque = !input
